@@ -109,18 +109,39 @@ type matcherFunc = func(gid gID, value uint16) bool
 // interprets `value` as a Glyph
 func matchGlyph(gid gID, value uint16) bool { return gid == gID(value) }
 
+// coverageIndex is the same as cov.Index(gid), but also accepts a nil coverage
+// (from a NULL offset in the font file), which does not cover any glyph.
+func coverageIndex(cov tables.Coverage, gid gID) (int, bool) {
+	if cov == nil {
+		return 0, false
+	}
+	return cov.Index(gid)
+}
+
+// classOf is the same as class.Class(gid), but also accepts a nil class definition
+// (from a NULL offset in the font file), which maps every glyph to the class 0.
+func classOf(class tables.ClassDef, gid gID) uint16 {
+	if class == nil {
+		return 0
+	}
+	c, _ := class.Class(gid)
+	return c
+}
+
 // interprets `value` as a Class
 func matchClass(class tables.ClassDef) matcherFunc {
 	return func(gid gID, value uint16) bool {
-		c, _ := class.Class(gid)
-		return uint16(c) == value
+		return classOf(class, gid) == value
 	}
 }
 
 // interprets `value` as an index in coverage array
 func matchCoverage(covs []tables.Coverage) matcherFunc {
 	return func(gid gID, value uint16) bool {
-		_, covered := covs[value].Index(gid)
+		if int(value) >= len(covs) {
+			return false
+		}
+		_, covered := coverageIndex(covs[value], gid)
 		return covered
 	}
 }
@@ -586,7 +607,10 @@ func (c *wouldApplyContext) wouldApplyLookupContext1(data tables.SequenceContext
 }
 
 func (c *wouldApplyContext) wouldApplyLookupContext2(data tables.SequenceContextFormat2, index int, glyphID GID) bool {
-	class, _ := data.ClassDef.Class(gID(glyphID))
+	class := classOf(data.ClassDef, gID(glyphID))
+	if int(class) >= len(data.ClassSeqRuleSet) {
+		return false
+	}
 	ruleSet := data.ClassSeqRuleSet[class]
 	return c.wouldApplyRuleSet(ruleSet, matchClass(data.ClassDef))
 }
@@ -623,7 +647,10 @@ func (c *wouldApplyContext) wouldApplyLookupChainedContext1(data tables.ChainedS
 }
 
 func (c *wouldApplyContext) wouldApplyLookupChainedContext2(data tables.ChainedSequenceContextFormat2, index int, glyphID GID) bool {
-	class, _ := data.InputClassDef.Class(gID(glyphID))
+	class := classOf(data.InputClassDef, gID(glyphID))
+	if int(class) >= len(data.ChainedClassSeqRuleSet) {
+		return false
+	}
 	ruleSet := data.ChainedClassSeqRuleSet[class]
 	return c.wouldApplyChainRuleSet(ruleSet, matchClass(data.InputClassDef))
 }
@@ -1052,7 +1079,7 @@ func (c *otApplyContext) applyLookupContext1(data tables.SequenceContextFormat1,
 }
 
 func (c *otApplyContext) applyLookupContext2(data tables.SequenceContextFormat2, index int, glyphID GID) bool {
-	class, _ := data.ClassDef.Class(gID(glyphID))
+	class := classOf(data.ClassDef, gID(glyphID))
 	var ruleSet tables.SequenceRuleSet
 	if int(class) < len(data.ClassSeqRuleSet) {
 		ruleSet = data.ClassSeqRuleSet[class]
@@ -1087,7 +1114,7 @@ func (c *otApplyContext) applyLookupChainedContext1(data tables.ChainedSequenceC
 }
 
 func (c *otApplyContext) applyLookupChainedContext2(data tables.ChainedSequenceContextFormat2, index int, glyphID GID) bool {
-	class, _ := data.InputClassDef.Class(gID(glyphID))
+	class := classOf(data.InputClassDef, gID(glyphID))
 	var ruleSet tables.ChainedClassSequenceRuleSet
 	if int(class) < len(data.ChainedClassSeqRuleSet) {
 		ruleSet = data.ChainedClassSeqRuleSet[class]
